@@ -24,6 +24,8 @@ pub struct Gate {
     pub started: bool,
     pub ended: bool,
     pub waker: Option<Waker>,
+    /// Sender through which the function interrupts the run as it returns (mid-poll signal).
+    pub sig_tx: Option<tokio::sync::mpsc::Sender<interruptible::InterruptSignal>>,
 }
 
 #[derive(Default)]
@@ -134,6 +136,10 @@ impl Future for GateFut {
             g.ended = true;
             g.waker = None;
             let ok = g.ok;
+            if let Some(tx) = g.sig_tx.take() {
+                let sent = tx.try_send(interruptible::InterruptSignal).is_ok();
+                world.ev(json!({"ev":"signal","run":run,"sent":sent,"inside":f}));
+            }
             world.ev(json!({"ev":"end","run":run,"f":f,"ok":ok}));
             drop(world);
             self.done = true;
@@ -163,13 +169,20 @@ impl Drop for GateFut {
 }
 
 /// Driver side: let `f` complete. Returns false if `f` is not in flight.
-pub fn gate_open(w: &W, run: usize, f: usize, ok: bool) -> bool {
+pub fn gate_open(
+    w: &W,
+    run: usize,
+    f: usize,
+    ok: bool,
+    sig_tx: Option<tokio::sync::mpsc::Sender<interruptible::InterruptSignal>>,
+) -> bool {
     let waker = {
         let mut world = w.borrow_mut();
         match world.gates.get_mut(&(run, f)) {
             Some(g) if g.started && !g.ended && !g.open => {
                 g.open = true;
                 g.ok = ok;
+                g.sig_tx = sig_tx;
                 g.waker.take()
             }
             _ => return false,
